@@ -94,6 +94,8 @@ def pcmci_to_networkx(
                     elif link_type_symbol == "<--":
                         # graph[i, j, lag] = '<--' means i is caused by j (j -> i)
                         # This is equivalent to graph[j, i, lag] = '-->'
+                        if graph[j, i, lag] == "-->":
+                            continue  # mirror entry already yields this edge
                         G.add_edge(
                             j,
                             i,
@@ -150,6 +152,8 @@ def pcmci_to_networkx(
                     elif link_type_symbol == "<--":
                         # graph[i, j, lag] = '<--' means i is caused by j (j -> i)
                         # This is equivalent to graph[j, i, lag] = '-->'
+                        if graph[j, i, lag] == "-->":
+                            continue  # mirror entry already yields this edge
                         G.add_edge(
                             j,
                             i,
@@ -237,6 +241,11 @@ def networkx_to_pcmci(G: nx.MultiDiGraph) -> dict:
             graph[u, v, lag] = "-->"
             val_matrix[u, v, lag] = val
             p_matrix[u, v, lag] = p
+            if lag == 0 and u != v and graph[v, u, lag] == "":
+                # PCMCI mirrors contemporaneous directed links
+                graph[v, u, lag] = "<--"
+                val_matrix[v, u, lag] = val
+                p_matrix[v, u, lag] = p
         elif semantic_link_type in ["undirected", "conflicting"]:
             # For undirected/conflicting, we expect edges in both directions
             # Process only once using the canonical form (min, max)
